@@ -42,6 +42,22 @@ let path_op mode toks =
 
 let text (s : str) : string = String.concat "" (List.map (fun c -> String.make 1 (Char.chr ((int_of_z c) land 255))) s)
 
+let crc32 (l : int list) : int =
+  let c = ref 0xffffffff in
+  List.iter (fun b ->
+    c := !c lxor b;
+    for _ = 0 to 7 do c := (!c lsr 1) lxor (0xedb88320 land (- (!c land 1))) done) l;
+  (lnot !c) land 0xffffffff
+
+(* byte strings longer than 128 bytes are shown as #<length>.<crc32> *)
+let render (l : z list) : string =
+  let n = List.length l in
+  if n <= 128 then hx l else Printf.sprintf "#%d.%08x" n (crc32 (List.map int_of_z l))
+
+(* the deterministic byte pattern of mkfbig / writebig *)
+let pat seed i = (seed * 17 + i * 131 + (i lsr 8) * 7 + (i lsr 16) * 3) land 255
+let big seed n : z list = List.init n (fun i -> z_of_int (pat seed i))
+
 (* canonical listing of the whole tree: one token per entry, sorted; the guard directories
    g1/g2/g3 are not listed themselves and their prefix is dropped *)
 let snapshot (r : node) : string =
@@ -53,8 +69,8 @@ let snapshot (r : node) : string =
           let p = if prefix = "" then text k else prefix ^ "/" ^ text k in
           (match ch with
            | NDir _ -> acc := (p ^ ":d") :: !acc
-           | NFile c -> acc := (p ^ ":f:" ^ hx c) :: !acc
-           | NLink t -> acc := (p ^ ":l:" ^ hx t) :: !acc);
+           | NFile c -> acc := (p ^ ":f:" ^ render c) :: !acc
+           | NLink t -> acc := (p ^ ":l:" ^ render t) :: !acc);
           go p ch) es
     | _ -> () in
   go "" r;
@@ -75,49 +91,100 @@ let handles_text (st : state) : string =
 let is_dir_handle st h = match hfind st.handles h with Some f -> f.fd_dir | None -> false
 let is_open st h = match hfind st.handles h with Some _ -> true | None -> false
 
+(* probes: the name, in the snapshot, of what a path text (or a descriptor) denotes for the kernel *)
+let cpath_text (p : cpath) : string =
+  match List.map text p with
+  | "g1" :: "g2" :: "g3" :: (_ :: _ as rest) -> String.concat "/" rest
+  | [] -> "!."
+  | names -> "!" ^ String.concat "/" names
+
+let probe st follow path =
+  match resolve st follow path with
+  | WAt (d, nm, Some _) -> cpath_text (d @ [nm])
+  | WDir (d, _) -> cpath_text d
+  | _ -> "-"
+
+(* the place a path text names: its directory part resolved, plus the last component when that is a
+   proper name (the same textual rule as in the harness) *)
+let place st (path : str) : string =
+  let s = text path in
+  let n = String.length s in
+  let cut = ref n in
+  while !cut > 0 && s.[!cut - 1] <> '/' do decr cut done;
+  let base = String.sub s !cut (n - !cut) in
+  let dir =
+    if !cut = 0 then "." else begin
+      let k = ref !cut in
+      while !k > 1 && s.[!k - 1] = '/' do decr k done;
+      String.sub s 0 !k end in
+  let str_of (x : string) : str = List.init (String.length x) (fun i -> z_of_int (Char.code x.[i])) in
+  if base = "" || base = "." || base = ".." then "-"
+  else
+    let dpath = match resolve st true (str_of dir) with
+      | WAt (d, nm, Some SDir) -> Some (d @ [nm])
+      | WDir (d, _) -> Some d
+      | _ -> None in
+    match dpath with
+    | Some d -> cpath_text (d @ [str_of base])
+    | None -> "-"
+
 let fs_op (mode : [`Model | `Spec]) (st : state) toks : state =
-  let fin st' res =
+  let fin ?(pre = []) ?(post = []) st' res =
     (match mode with
-     | `Model -> emit (Printf.sprintf "%s | %s | %s" res (snapshot st'.root) (handles_text st'))
+     | `Model ->
+         let ps = pre @ List.map (fun (k, follow, path) -> k ^ "=" ^ probe st' follow path) post in
+         emit (Printf.sprintf "%s | %s | %s | %s" res (snapshot st'.root) (handles_text st')
+                 (if ps = [] then "-" else String.concat " " ps))
      | `Spec -> emit (Printf.sprintf "%s | %s" res (snapshot st'.root)));
     st' in
   let e01 e = match e with None -> "1" | Some _ -> "0" in
   let p = bytes_of_hex in
   let nat s = nat_of_int (int_of_string s) in
+  let now k follow path = k ^ "=" ^ probe st follow path in
+  let tprobe h = match hfind st.handles (nat h) with Some f -> ["t=" ^ cpath_text f.fd_path] | None -> [] in
   match toks with
   | ["mkd"; a] -> let (s, e) = k_mkdir st (p a) in fin s (e01 e)
   | ["mkf"; a; c] -> let (s, e) = k_mkfile st (p a) (p c) in fin s (e01 e)
+  | ["mkfbig"; a; seed; n] -> let (s, e) = k_mkfile st (p a) (big (int_of_string seed) (int_of_string n)) in fin s (e01 e)
   | ["mkl"; t; a] -> let (s, e) = k_symlink st (p t) (p a) in fin s (e01 e)
+  | "inject" :: _ -> fin st "-"
   | ["open"; h; a; fl] ->
       let fl = int_of_string fl in
       let (s, b) = f_open st (nat h) (p a) (fl land 1 <> 0) (fl land 2 <> 0) (fl land 4 <> 0) (fl land 8 <> 0) in
-      fin s (b01 b)
+      fin ~post:["d", true, p a] s (b01 b)
   | ["close"; h] -> fin (f_close st (nat h)) "-"
-  | [("write" | "read" | "readall" | "seek" | "size"); h] | [("write" | "read" | "readall" | "seek" | "size"); h; _]
-  | [("write" | "read" | "readall" | "seek" | "size"); h; _; _]
+  | [("write" | "read" | "readall" | "seek" | "size"); h] | [("write" | "read" | "readall" | "seek" | "size" | "writebig"); h; _]
+  | [("write" | "read" | "readall" | "seek" | "size" | "writebig"); h; _; _]
     when not (is_open st (nat h)) -> fin st "?closed"
-  | [("readall" | "size" | "seek" | "read" | "write"); h] | [("readall" | "size" | "seek" | "read" | "write"); h; _]
-  | [("readall" | "size" | "seek" | "read" | "write"); h; _; _]
+  | [("readall" | "size" | "seek" | "read" | "write"); h] | [("readall" | "size" | "seek" | "read" | "write" | "writebig"); h; _]
+  | [("readall" | "size" | "seek" | "read" | "write" | "writebig"); h; _; _]
     when is_dir_handle st (nat h) -> fin st "?dir"
-  | ["write"; h; d] -> let (s, b) = f_write st (nat h) (p d) in fin s (b01 b)
+  | ["write"; h; d] -> let (s, b) = f_write st (nat h) (p d) in fin ~pre:(tprobe h) s (b01 b)
+  | ["writebig"; h; seed; n] ->
+      let (s, b) = f_write st (nat h) (big (int_of_string seed) (int_of_string n)) in fin ~pre:(tprobe h) s (b01 b)
   | ["read"; h; n] ->
       let (s, r) = f_read st (nat h) (nat n) in
-      fin s (match r with Inl d -> hx d | Inr _ -> "-1")
-  | ["readall"; h] -> let (s, (b, d)) = f_readAll st (nat h) in fin s (b01 b ^ " " ^ hx d)
-  | ["seek"; h; off; wh] -> let (s, z) = f_seek st (nat h) (z_of_int (int_of_string off)) (nat wh) in fin s (dec_of_z z)
-  | ["size"; h] -> let (s, z) = f_size st (nat h) in fin s (dec_of_z z)
-  | ["funlink"; a] -> let (s, b) = f_unlink st (p a) in fin s (b01 b)
-  | ["symlink"; t; a] -> let (s, b) = f_symlink st (p t) (p a) in fin s (b01 b)
-  | ["rename"; a; b; fie] -> let (s, r) = f_rename st (p a) (p b) (fie = "1") in fin s (b01 r)
-  | ["copy"; a; b; fie] -> let (s, r) = f_copy st (p a) (p b) (fie = "1") in fin s (b01 r)
-  | ["exists"; a] -> fin st (b01 (d_exists st (p a)))
+      fin ~pre:(tprobe h) s (match r with Inl d -> render d | Inr _ -> "-1")
+  | ["readall"; h] -> let (s, (b, d)) = f_readAll st (nat h) in fin ~pre:(tprobe h) s (b01 b ^ " " ^ render d)
+  | ["seek"; h; off; wh] ->
+      let (s, z) = f_seek st (nat h) (z_of_int (int_of_string off)) (nat wh) in fin ~pre:(tprobe h) s (dec_of_z z)
+  | ["size"; h] -> let (s, z) = f_size st (nat h) in fin ~pre:(tprobe h) s (dec_of_z z)
+  | ["funlink"; a] -> let (s, b) = f_unlink st (p a) in fin ~pre:[now "s" false (p a)] s (b01 b)
+  | ["symlink"; t; a] -> let (s, b) = f_symlink st (p t) (p a) in fin ~post:["d", false, p a] s (b01 b)
+  | ["rename"; a; b; fie] ->
+      let (s, r) = f_rename st (p a) (p b) (fie = "1") in
+      fin ~pre:[now "s" false (p a); now "e" false (p b); "p=" ^ place st (p b)] ~post:["d", false, p b] s (b01 r)
+  | ["copy"; a; b; fie] ->
+      let (s, r) = f_copy st (p a) (p b) (fie = "1") in
+      fin ~pre:[now "s" true (p a); now "e" true (p b)] ~post:["d", true, p b] s (b01 r)
+  | ["exists"; a] -> fin ~pre:[now "s" true (p a)] st (b01 (d_exists st (p a)))
   | ["create"; a] ->
       let (s, b) = d_create (create_fuel (p a)) st (p a) in
       (* second token: does the directory exist afterwards (the clause of the property) *)
-      fin s (b01 b ^ " " ^ b01 (d_exists s (p a)))
+      fin ~post:["d", true, p a] s (b01 b ^ " " ^ b01 (d_exists s (p a)))
   | ["dunlink"; a; r] ->
       let (s, b) = d_unlink (unlink_fuel st) st (p a) (r = "1") in
-      fin s (b01 b ^ " " ^ b01 (d_exists s (p a)))
+      fin ~pre:[now "s" false (p a)] s (b01 b ^ " " ^ b01 (d_exists s (p a)))
   | _ -> failwith ("bad op: " ^ String.concat " " toks)
 
 let () =
